@@ -79,10 +79,11 @@ def in_band(i, j, l1, l2, w):
     return a <= j < b
 
 
-def ref_cells(s1, s2, window=None, penalty=None, psi=None, max_step=None, inner='squared euclidean'):
+def ref_cells(s1, s2, window=None, penalty=None, psi=None, max_step=None, inner='squared euclidean', bandfn=None):
     """Accumulated cost (internal representation) of the best admissible partial path ending at each pair.
 
-    Returns dict {(i, j): cost}; pairs that no admissible path reaches are absent."""
+    Returns dict {(i, j): cost}; pairs that no admissible path reaches are absent.
+    bandfn(i) -> (a, b) overrides the documented band (used only for defect models of known findings)."""
     dist, _res, ival = INNER[inner]
     l1, l2 = len(s1), len(s2)
     pen = ival(penalty) if penalty else 0.0
@@ -90,7 +91,7 @@ def ref_cells(s1, s2, window=None, penalty=None, psi=None, max_step=None, inner=
     p1b, p1e, p2b, p2e = norm_psi(psi)
     R = {}
     for i in range(l1):
-        a, b = band(i, l1, l2, window)
+        a, b = bandfn(i) if bandfn else band(i, l1, l2, window)
         for j in range(a, b):
             d = dist(s1[i], s2[j])
             if d > ms:
@@ -186,6 +187,48 @@ def brute_dtw_internal(s1, s2, window=None, penalty=None, psi=None, max_step=Non
     for (i, j) in start_cells(l1, l2, psi):
         rec(i, j, 0.0)
     return best[0], best[1]
+
+
+def psi_beyond_band(l1, l2, w, psi):
+    """True when a psi-relaxed corner cell lies outside the window band (psi wider than the band)."""
+    p1b, p1e, p2b, p2e = norm_psi(psi)
+    corners = []
+    if p2b:
+        corners.append((0, min(p2b, l2 - 1)))
+    if p1b:
+        corners.append((min(p1b, l1 - 1), 0))
+    if p2e:
+        corners.append((l1 - 1, max(0, l2 - 1 - p2e)))
+    if p1e:
+        corners.append((max(0, l1 - 1 - p1e), l2 - 1))
+    return any(not in_band(i, j, l1, l2, w) for i, j in corners)
+
+
+def c_wps_band(l1, l2, w):
+    """The band that the C warping-paths kernels (compact layout, regions A-D of dtw_wps_parts) actually fill,
+    transcribed from dd_dtw.c. Used only as defect model of known finding F04c."""
+    m = max(l1, l2)
+    window = m if not w else min(w, m)
+    ldiff = abs(l1 - l2)
+    ldiffr = l1 - l2 if l1 > l2 else 0
+    ldiffc = l2 - l1 if l2 > l1 else 0
+    ol = min(window + ldiffr, l1 + 1)
+    orr = max(l1 + 1 - window - ldiffr, 0) if window + ldiffr <= l1 else 0
+    ri1 = min(l1, min(ol, orr))
+    ri2 = min(l1, ol)
+    ri3 = min(l1, max(ol, orr))
+    out = []
+    for ri in range(l1):
+        if ri < ri1:
+            out.append((0, min(l2, window + ldiffc + ri)))
+        elif ri < ri2:
+            out.append((0, l2))
+        elif ri < ri3:
+            out.append((1 + ri - ri2, min(l2, 2 * window + ldiff + ri - ri2)))
+        else:
+            m0 = max(0, ri3 + 1 - window - ldiff) if ri2 == ri3 else 1 + ri3 - ri2
+            out.append((m0 + ri - ri3, l2))
+    return out
 
 
 # ------------------------------------------------------------------------------------------------------
